@@ -49,7 +49,6 @@ func main() {
 	cfgs := []cfgT{{"default", false, "", nil}}
 	if *tier == "thorough" {
 		cfgs = append(cfgs,
-			cfgT{"tests", true, "", nil},
 			cfgT{"tag-verif", false, "verif", nil},
 			cfgT{"386", false, "", []string{"GOARCH=386"}},
 			cfgT{"windows", false, "", []string{"GOOS=windows", "GOARCH=amd64"}},
